@@ -20,6 +20,9 @@ def reference_reply(line):
     if line in _REF_CACHE:
         return _REF_CACHE[line]
     loop = fresh_loop()
+    from . import verif_workers as vw
+
+    vw.ACTIVE = vw.Recorder(loop)
     pool = TaskPool(pool_size=2)
     s = Session(loop, pool, 80, name="ref")
     loop.run_idle()
@@ -48,6 +51,9 @@ class CtlWorld:
         self.dead = False
         self.cap = Capture()
         self.loop = fresh_loop()
+        from . import verif_workers as vw
+
+        vw.ACTIVE = vw.Recorder(self.loop)
         self.viol = []
         self.gates = {}
         self.live = 0
@@ -226,12 +232,15 @@ class CtlWorld:
                 self.loop.tasks.append(self.closer)
             else:
                 i = act[1]
-                k = self.sent[i]
-                line = self.scen["sessions"][i][k]
-                if line.startswith("flush"):
-                    self.precond[(i, k)] = [g for g in self.gates if g[0] == "ecb"]
-                self.sessions[i].send(line)
-                self.sent[i] += 1
+                burst = self.scen.get("burst")
+                n = burst[1] if burst and burst[0] == i and self.sent[i] == 0 else 1  # the first n lines arrive in one write
+                for _ in range(n):
+                    k = self.sent[i]
+                    line = self.scen["sessions"][i][k]
+                    if line.startswith("flush"):
+                        self.precond[(i, k)] = [g for g in self.gates if g[0] == "ecb"]
+                    self.sessions[i].send(line)
+                    self.sent[i] += 1
 
     def terminal(self):
         self.check_writes("terminal")
